@@ -14,6 +14,7 @@
 
 
 import jax.numpy as jnp
+import jax.tree_util as jtu
 
 from genjax._src.core.compiler.interpreters.incremental import (
     Diff,
@@ -36,6 +37,7 @@ from genjax._src.core.generative.choice_map import Address, Selection
 from genjax._src.core.pytree import Pytree
 from genjax._src.core.typing import (
     Any,
+    Flag,
     FloatArray,
     Generic,
     IntArray,
@@ -244,22 +246,30 @@ class Switch(Generic[R], GenerativeFunction[R]):
 
         def inner(
             key: PRNGKey,
+            old_trace: Trace[R],
+            same_idx: Flag,
             edit_request: Update,
             argdiffs: Argdiffs,
         ) -> tuple[Trace[R], Weight, Retdiff[R], EditRequest]:
             # the old trace only has a filled-in subtrace for the original index. All other subtraces are filled with zeros. In the case of a changed index we need to
             #
             # - generate a fresh trace for the new branch,
-            # - call `edit` with that new trace (setting the argdiffs passed into `edit` as `no_change`, since we used the same args to create the new trace)
+            # - call `edit` with that new trace
             # - return the edit result with the `retdiff` wrapped in `unknown_change` (since our return value comes from a new branch)
+            #
+            # An index whose *tag* is UnknownChange may still have the same *value* (e.g. under `scan`, which tags every kernel argument
+            # UnknownChange): in that case the branch keeps its existing subtrace.
             primals = Diff.tree_primal(argdiffs)
-            new_trace = gen_fn.simulate(key, primals)
+            fresh_trace = gen_fn.simulate(key, primals)
+            start_trace = jtu.tree_map(
+                lambda old, fresh: jnp.where(same_idx, old, fresh), old_trace, fresh_trace
+            )
 
             tr, w, rd, bwd_request = gen_fn.edit(
                 key,
-                new_trace,
+                start_trace,
                 edit_request,
-                Diff.no_change(argdiffs),
+                Diff.unknown_change(primals),
             )
             return tr, w, Diff.unknown_change(rd), bwd_request
 
@@ -289,8 +299,12 @@ class Switch(Generic[R], GenerativeFunction[R]):
                 for trace, argdiffs in zip(trace.subtraces, branch_argdiffs)
             )
         else:
+            same_idx = new_idx == trace.get_idx()
             fs = list(self._make_edit_fresh_trace(f) for f in self.branches)
-            f_args = list((key, edit_request, argdiffs) for argdiffs in branch_argdiffs)
+            f_args = list(
+                (key, trace, same_idx, edit_request, argdiffs)
+                for trace, argdiffs in zip(trace.subtraces, branch_argdiffs)
+            )
 
         rets = multi_switch(new_idx, fs, f_args)
 
